@@ -91,7 +91,7 @@ def dangling_close(det):
 def features(core, det=None):
     """what the minimal failing program contains (decided on the reduced text)"""
     f = []
-    if re.search(r"(//|#)[^\n]*\n?\s*[)\]}]", core):
+    if re.search(r"(//|#)[^\n]*\n?[\s,]*[)\]}]", core):
         f.append("line-comment-before-closing-bracket")
     if re.search(r"[(\[{]\s*(/\*|//|#)", core):
         f.append("comment-after-opening-bracket")
